@@ -54,7 +54,7 @@ CHECKS = {
              "TLC checks ReadEq / NoNeighbourLeak / ElementOutsideRaises and classifies every index class. Every emitted case is replayed "
              "on real arrays built in three ways with scalar and 2-vector elements, attributes included; reads recorded from the "
              "repository's own test_ra.py are validated by Trace_RaggedRead.tla (thorough).",
-        note="shapes <=3 rows x length <=3 (thorough: a shard of <=4x4), bounds -4..4 or None, steps None/1/2/-1, lists of length <=2; two-slot products pairwise in quick; error types are not compared, only that an error is raised",
+        note="shapes <=3 rows x length <=3 (thorough: a shard of <=4x4), bounds -4..4 or None, steps None/1/2/-1/-2, lists of length <=2; two-slot products pairwise in quick; error types are not compared, only that an error is raised",
         ref="6/C05"),
     "C06": dict(
         technique="TLA+ spec RaggedWrite.tla (abstract rows + concrete data/arr/lengths per writer, Coherent after every action) model-checked with TLC; TLC-generated operation histories replayed into the real object with all observers compared after every step",
